@@ -6,6 +6,7 @@ from hypothesis import strategies as st
 
 from vf import build, hist, oracle, strategies as S
 from vf.core import Part, Violation, call, from_puan
+from vf.props import common
 
 PROPERTY = "C09"
 RULE = ("Hypothesis RuleBasedStateMachine over a pool (<=6) of live models/configurators. Rules: create model / configurator "
@@ -592,8 +593,50 @@ def wide_validation(tier):
                 yield {"tolerant": False, "strict_names": True, "steps": steps}
 
 
+def twin_queries(tier):
+    """scripted histories: a model / configurator and a TWIN of it (same ids and shape; bounds of one leaf replaced by bounds
+    with the same lower+upper in every occurrence, or in ONE occurrence only - which makes the twin ill-defined -, another
+    default, a swapped connective) live in one process; every kind of query is put to both, in either order. Whatever is
+    remembered per "equal-looking" object instead of per definition answers the second one with the first one's result."""
+    L = lambda i: {"k": "leaf", "id": i, "b": [0, 1]}
+    N = lambda: {"k": "leaf", "id": "n", "b": [0, 2]}
+    model = {"k": "All", "id": "A", "c": [{"k": "AtLeast", "id": "B", "v": 2, "s": 1, "c": [N(), L("a")]}, {"k": "Any", "id": "C", "c": [N(), L("b")]}]}
+    cfg = {"k": "Stingy", "id": "conf", "c": [{"k": "cXor", "id": "X", "c": [L("p"), L("q"), L("r")], "default": ["q"]},
+                                              {"k": "cAny", "id": "Y", "c": [L("a"), L("b")], "default": ["a"]},
+                                              {"k": "AtLeast", "id": "R", "v": 1, "s": 1, "c": [N(), L("a")]}]}
+    I_model = [["n", 0, 1, 1], ["a", 0, 1, 1], ["b", 0, 0, 0]]
+    I_cfg = [["n", 0, 1, 1], ["a", 0, 1, 1], ["b", 0, 0, 0], ["p", 0, 0, 0], ["q", 0, 1, 1], ["r", 0, 0, 0]]
+    for base, I in ((model, I_model), (cfg, I_cfg)):
+        is_cfg = base["k"] == "Stingy"
+        twins = [twin_spec(base, 0, [j]) for j in range(len(oracle.spec_leaves(base)))] + [twin_spec(base, 4, [0])]
+        if is_cfg:
+            twins += [twin_spec(base, 1, [0]), twin_spec(base, 2, [0])]
+        twins += common.twins_one_occurrence(base, limit=4)
+        queries = [{"q": "evaluate", "i": I}, {"q": "evaluate_propositions", "i": I}, {"q": "assume", "i": I[:2]}, {"q": "reduce"}, {"q": "negate"},
+                   {"q": "errors"}, {"q": "flatten"}, {"q": "to_json"}, {"q": "to_text"}, {"q": "to_short"}, {"q": "b64_roundtrip"},
+                   {"q": "to_ge_polyhedron", "active": True}, {"q": "to_ge_polyhedron", "active": False}, {"q": "flags"}, {"q": "inspect"},
+                   {"q": "solve", "objs": [[["a", 1], ["n", -1]]], "solver": "exact", "virtual": True}]
+        if is_cfg:
+            queries += [{"q": "ge_polyhedron"}, {"q": "default_prios"}, {"q": "leafs"},
+                        {"q": "select", "prios": [[["p", 1]], [["b", 2], ["q", -1]]], "solver": "exact", "only_leafs": False},
+                        {"q": "select", "prios": [[["r", 1]]], "solver": "marker", "only_leafs": True}]
+        seen = set()
+        for tw in twins:
+            key = json.dumps(tw, sort_keys=True)
+            if tw == base or key in seen:
+                continue
+            seen.add(key)
+            for first, second in ((base, tw), (tw, base)):
+                steps = [{"s": "create", "spec": first}, {"s": "create", "spec": second, "twin_of": 0}]
+                for q in queries:
+                    steps.append({"s": "query", "idx": 0, "query": copy.deepcopy(q)})
+                    steps.append({"s": "query", "idx": 1, "query": copy.deepcopy(q)})
+                yield {"tolerant": False, "strict_names": True, "steps": steps}
+
+
 def parts(tier):
     return [
+        Part("twin_queries", enumerate_cases=twin_queries, check=replay, time_quick=150.0),
         Part("strict", machine=make_machine(False), check=replay, quick=(6, 130), thorough=(12, 800), time_quick=50, time_thorough=900),
         Part("tolerant", machine=make_machine(True), check=replay, quick=(2, 80), thorough=(4, 500), time_quick=50, time_thorough=900),
         Part("wide_validation", enumerate_cases=wide_validation, check=replay, time_quick=150.0),
